@@ -264,9 +264,31 @@ def execute(case):
     rec["trail_len"] = len(orc.trail)
     rec["trail"] = [list(t) for t in orc.trail] if case["rng"][0] != "seed" else []
     rec["jds_in_after"] = [[int(x) for x in j] for j in jds_arg]
+    rec["held_before"], rec["held_after"] = [], []
     if res is not None:
+        if "res" in _HELD:
+            rec["held_before"], rec["held_after"] = _HELD["digest"], _digest(_HELD["res"])
+        _HELD.update({"res": res, "digest": _digest(res)})
         _project(rec, res, N)
     return rec
+
+
+_HELD = {}      # the previous result object, kept alive: producing another graph must not change an earlier result
+
+
+def _digest(res):
+    """compact fingerprint of a returned edge list / network (list of ints) for the 'earlier result unchanged' clause"""
+    try:
+        if hasattr(res, "edge_list"):
+            es = list(res.edge_list)
+            return [len(es), sum(hash((int(e[0]), int(e[1]))) % 9973 for e in es if isinstance(e, (tuple, list)) and len(e) == 2),
+                    len(res.topologies), sum(hash(str(t)) % 9973 for t in res.topologies), len(res.motif_id),
+                    sum(int(m) % 9973 for m in res.motif_id if isinstance(m, int)), sum(sum(int(x) for x in j) for j in res.joint_degrees)]
+        G = res.G if hasattr(res, "G") else res
+        return [G.number_of_nodes(), G.number_of_edges(), sum(hash((min(a, b), max(a, b))) % 9973 for a, b in G.edges()),
+                sum(hash(str(sorted(d.items(), key=str))) % 9973 for _a, _b, d in G.edges(data=True))]
+    except Exception:
+        return [-1]
 
 
 def _project(rec, res, N):
